@@ -732,7 +732,7 @@ class Interp:
             return self.eval(n.body, fr)
         if z3.is_false(t):
             return self.eval(n.orelse, fr)
-        if _pure_expr(n.body) and _pure_expr(n.orelse) and not self.ctx.speculating:
+        if _pure_expr(n.body) and _pure_expr(n.orelse) and not self.ctx.speculating and not getattr(self, "no_merge", False):
             # merge when both sides are scalars and need no fork
             try:
                 a = self._speculate(n.body, fr, t)
